@@ -63,9 +63,51 @@ def _many_stems(tier):
                     yield c
 
 
+PRE = ("convert-none", "convert-raise", "fcfs+all+elements", "sibling-lengths", "sibling-gap")
+
+
+def _after_calls(tier):
+    """'The' notation asked for AFTER other calls: an explicit conversion without / with a failing solver on the same object, the other notations and
+    the elements of the same object, and - on another object in the same process - the same chord diagram with other stem lengths or another gap
+    (same crossing pattern, another optimum). Every knotted chord diagram of 2-3 stems (thorough: 4) x lengths {1,2,3} x the five preludes."""
+    q = tier == "quick"
+    for c in enum2d.D(3 if q else 4, lens=(1, 2, 3), kmin=2, gapvals=(0, 1)):
+        _, _, knotted, _ = info(c)
+        if not knotted:
+            continue
+        for pre in PRE:
+            yield {**c, "pre": pre}
+
+
+def _prelude(case, b, out):
+    from mc import seams
+
+    pre = case["pre"]
+    if pre == "convert-none":
+        call("pre:convert_to_dot_bracket(None)", b.convert_to_dot_bracket, out, None)
+    elif pre == "convert-raise":
+        call("pre:convert_to_dot_bracket(failing solver)", b.convert_to_dot_bracket, out, seams.FaultSolver(["raise"]))
+    elif pre == "fcfs+all+elements":
+        call("pre:fcfs", lambda: b.fcfs, out)
+        call("pre:all_dot_brackets", lambda: b.all_dot_brackets, out)
+        call("pre:elements", lambda: b.elements, out)
+    else:
+        arcs = tuple(tuple(a) for a in case["diagram"])
+        K = len(arcs)
+        if pre == "sibling-lengths":
+            sibs = [enum2d.chord_structure(arcs, lv, [case["gap"]] * (2 * K + 1)) for lv in (case["lengths"][::-1], [4 - x for x in case["lengths"]])]
+        else:
+            sibs = [enum2d.chord_structure(arcs, case["lengths"], [g] * (2 * K + 1)) for g in (1 - case["gap"], 2)]
+        for sc in sibs:
+            sb = call("pre:sibling", build, out, sc)
+            if sb is not None:
+                call("pre:sibling.dot_bracket", lambda: sb.dot_bracket, out)
+
+
 def families(tier):
     q = tier == "quick"
     fams = [
+        ("after-calls", lambda: _after_calls(tier), 1),
         ("many-stems", lambda: _many_stems(tier), 1),
         ("M", lambda: enum2d.M(10 if q else 12), 1),
         ("D", lambda: enum2d.D(4, lens=(1, 2, 3)), 1),
@@ -85,9 +127,12 @@ def run_case(case):
     b = call("from_string", build, out, case)
     if b is None:
         return dict(nontrivial=True, outcome="build-failed", violations=out)
+    if "pre" in case:
+        _prelude(case, b, out)
     d = call("dot_bracket", lambda: b.dot_bracket, out)
     f = call("fcfs", lambda: b.fcfs, out)
     outcome = "knotted" if knotted else "nested"
+    n_pre = len(out)
     if d is not None:
         dec = check_dbn("dot_bracket", case, seq, d, out)
         if dec is not None:
@@ -125,4 +170,8 @@ def run_case(case):
                         out.append(viol("fcfs-baseline-invalid", "the first-come-first-served notation %s is not an encoding of %s, so the result cannot be compared with it" % (f.structure, case["pairs"]),
                                         f.structure, d.structure))
                 outcome += " levels=%d" % (max(levels) + 1 if levels else 0)
+    if "pre" in case:
+        for v in out[n_pre:]:
+            v["signature"] += ":after:" + case["pre"]
+            v["message"] = "(after %s) %s" % (case["pre"], v["message"])
     return dict(nontrivial=knotted, outcome=outcome, violations=out)
